@@ -77,6 +77,8 @@ type topoRun struct {
 	name map[string]string // ip -> h1
 	seq  int16
 	tok  int
+	// connections of a muted node that the proxy still held 1.5 s after the node fell silent
+	idleNotEnforced []string
 }
 
 func (tr *topoRun) probe(n int) map[string]bool {
@@ -175,9 +177,19 @@ func (tr *topoRun) apply(st topoStep) {
 			}
 		}
 	case "mute":
-		// heartbeat silence: the node stops answering on its existing connections; the proxy must replace them
+		// heartbeat silence: the node stops answering on its existing connections; the proxy must give them up once
+		// the idle timeout (600 ms) has passed without an answered heartbeat (interval 150 ms) and replace them
+		var before []*fakecql.Conn
+		if n := c.Node(ip); n != nil {
+			before = n.Conns()
+		}
 		c.Mute(ip, true)
-		time.Sleep(900 * time.Millisecond) // > idle timeout (600 ms)
+		time.Sleep(1500 * time.Millisecond)
+		for _, cn := range before {
+			if !cn.Closed() {
+				tr.idleNotEnforced = append(tr.idleNotEnforced, fmt.Sprintf("%s conn %d (registered=%v)", st.H, cn.ID, cn.Registered))
+			}
+		}
 		c.Mute(ip, false)
 	}
 }
@@ -280,6 +292,10 @@ func runTopoBehaviour(beh []topoStep, res *topoResult, base, max time.Duration, 
 	for i, st := range beh {
 		if st.A != "init" {
 			tr.apply(st)
+			if len(tr.idleNotEnforced) > 0 {
+				res.Mismatches = append(res.Mismatches, topoMismatch{Behaviour: beh, Step: i, Kind: "idle", Note: strings.Join(tr.idleNotEnforced, "; ")})
+				break
+			}
 		} else {
 			for k := 1; k <= st.N; k++ {
 				st.Routed = append(st.Routed, fmt.Sprintf("h%d", k))
